@@ -98,7 +98,23 @@ pub fn run(cfg: &Cfg, rep: &mut Report) {
                     }
                 }
                 let r = engine::guarded(FUEL, || (re.replace_all(hay, "[$1|$0|${a}]"), re.replace(hay, "<$2>")));
-                note(&mut h, format!("replace|{:?}|{}", hay, match r { Guarded::Ok((a, b)) => format!("{:?}/{:?}", a, b), _ => "FUEL-OR-PANIC".into() }));
+                note(
+                    &mut h,
+                    format!(
+                        "replace|{:?}|{}",
+                        hay,
+                        match r {
+                            Guarded::Ok((a, b)) => format!("{:?}/{:?}", a, b),
+                            Guarded::Fuel => {
+                                // step budgets differ between builds (different lowering): a program
+                                // that exhausts it anywhere is excluded from the comparison
+                                cost += 1_000_000;
+                                "FUEL".into()
+                            }
+                            Guarded::Panic(m) => format!("PANIC({})", m),
+                        }
+                    ),
+                );
             }
         }
         let mut lock = out.lock();
